@@ -12,6 +12,14 @@ namespace NA.Vpn.G
 /-- references go to kinds of strictly lower rank -/
 def Ranked (objs : List Obj) : Prop := ∀ o ∈ objs, ∀ x ∈ o.refs, rk x.1 < rk o.kind
 
+/-- decidable form -/
+def Ranked.decB (objs : List Obj) : Bool := objs.all fun o => o.refs.all fun x => decide (rk x.1 < rk o.kind)
+
+theorem ranked_of_decB (objs : List Obj) (h : Ranked.decB objs = true) : Ranked objs := by
+  intro o ho x hx
+  have := (List.all_eq_true.1 ((List.all_eq_true.1 h) o ho)) x hx
+  simpa using this
+
 /-- the two configurations are never changed -/
 def AB (a b : List Obj) (st : St) : Prop := st.a = a ∧ st.b = b
 
